@@ -120,8 +120,10 @@ let handle_case kind c =
         end
       end else begin
         if status = "5xx" then begin
-          if null_program_reached semver cfg decoded then prop "null-program-5xx" (describe ())
-          else prop "never-5xx" (describe ())
+          let has_null = match decoded with
+            | Some r -> List.exists (fun o -> o = None) r.r_programs
+            | None -> false in
+          if has_null then prop "null-program-5xx" (describe ()) else prop "never-5xx" (describe ())
         end;
         if not size_ok && (status <> "4xx" || changed) then prop "oversize-refused" (describe ())
         else if status = "2xx" || changed then prop "stores-iff-valid" ("invalid request stored or acknowledged: " ^ describe ())
